@@ -317,3 +317,23 @@ def protect_with_env(penv, draws, data, sid, symbolic=True):
         pe = env_obj(penv)
         env.CL._sync_get_key = lambda *a, **k: pe
         return dpapi_ng.ncrypt_protect_secret(bytes(data), sid, server="dc.test")
+
+
+def impl_encrypt_seq(arg, symbolic=True):
+    """consecutive protect calls in ONE process with the DC replaced by the given envelope (a caller who only gets the public key)"""
+    import dpapi_ng
+
+    from .core import classify
+
+    penv, calls = arg
+    outs = []
+    for draws, data, sid in calls:
+        with _Env(draws=draws, symbolic=symbolic) as env:
+            pe = env_obj(penv)
+            env.CL._sync_get_key = lambda *a, **k: pe
+            try:
+                blob = dpapi_ng.ncrypt_protect_secret(bytes(data), sid, server="dc.test")
+                outs.append(Err("TypeError") if env.left else blob)  # draws left over: randomness was reused
+            except Exception as exc:  # noqa: BLE001
+                outs.append(classify(exc))
+    return outs
